@@ -224,6 +224,8 @@ pub fn parse_resolvable_string(data: &str) -> Vec<StringPart<'_>> {
     while start < input.len() {
         match input[start..].find('%') {
             Some(pos) => {
+                // `pos` is relative to `start`
+                let pos = start + pos;
                 if let Ok((rest, placeholder)) = parse_placeholder(&input[pos..]) {
                     if pos > 0 {
                         parts.push(StringPart::Verbatim(&input[..pos]));
@@ -232,7 +234,7 @@ pub fn parse_resolvable_string(data: &str) -> Vec<StringPart<'_>> {
                     start = 0;
                     parts.push(StringPart::Placeholder(placeholder));
                 } else {
-                    start += 1;
+                    start = pos + 1;
                 }
             }
             None => break,
